@@ -805,6 +805,72 @@ def r04_12(facts, res, rule="R04-12"):
         raise BrokenCheck("%s: no printer loop over a collection of structs found" % rule)
 
 
+def r04_14(facts, res, rule="R04-14"):
+    """A scratch string of a printer that is filled and read inside a loop belongs to one iteration: declared outside the loop
+    and never emptied inside it, the text of the second item starts with the text of the first (`a CDATA "x" b CDATA "xy"`).
+    Accepted: the declaration inside the loop, a reset (clear / truncate / mem::take / assignment) inside the loop, or a
+    buffer that is only appended to in the loop and read after it."""
+    import guards
+    st = res.rule(rule, instances=0, printers=0)
+    APPEND = {"push", "push_str", "extend", "insert_str", "write_str", "write_fmt", "write_char", "extend_from_slice"}
+    RESET = {"clear", "truncate", "drain", "split_off"}
+    for f in facts.fns.values():
+        if f["crate"] != "xml_info" or "body" not in f or f.get("derived") or f.get("test"):
+            continue
+        if not (" as std::fmt::Display>::fmt" in f["path"] or "IndentedDisplay>::indented" in f["path"]):
+            continue
+        st["printers"] += 1
+        bufs = {}
+        for n in walk(f["body"]):
+            if n.get("s") == "Let" and n.get("pat", {}).get("p") == "Bind" and "String" in str(n["pat"].get("ty", "")) and n["pat"].get("mut") and \
+                    isinstance(n.get("init"), dict) and n["init"].get("k") == "Call" and \
+                    str(n["init"]["f"].get("path", "")).endswith(("String::new", "String::with_capacity", "Default::default")):
+                bufs[n["pat"]["lid"]] = n
+        if not bufs:
+            continue
+        for lp in walk(f["body"]):
+            if lp.get("k") != "Loop":
+                continue
+            inside = list(walk(lp))
+            for lid, let in bufs.items():
+                if any(m is let for m in inside):
+                    continue
+                app_recv, appended, reset = set(), False, False
+                for m in inside:
+                    if m.get("k") == "MethodCall" and guards._root_local(m.get("recv"))[1] == lid and m.get("recv", {}).get("k") != "MethodCall":
+                        if m["m"] in APPEND:
+                            appended = True
+                            for x in walk(m["recv"]):
+                                app_recv.add(id(x))
+                        elif m["m"] in RESET:
+                            reset = True
+                            for x in walk(m["recv"]):
+                                app_recv.add(id(x))
+                    if m.get("k") in ("Assign", "AssignOp") and guards._root_local(m.get("l"))[1] == lid:
+                        if m.get("k") == "Assign":
+                            reset = True
+                        else:
+                            appended = True
+                        for x in walk(m["l"]):
+                            app_recv.add(id(x))
+                    if m.get("k") == "Call" and str(m["f"].get("path", "")).endswith(("mem::take", "mem::replace")) and \
+                            any(guards._root_local(a)[1] == lid for a in m.get("args", [])):
+                        reset = True
+                read = any(m.get("k") == "Path" and m.get("res") == "Local" and m.get("lid") == lid and id(m) not in app_recv for m in inside)
+                if not appended:
+                    continue
+                st["instances"] += 1
+                ok = reset or not read
+                res.oblige(1, ok)
+                if not ok:
+                    res.add(Finding(rule, "%s|%s" % (f["path"].split("::", 1)[1], let["pat"].get("name")), "%s: the scratch string `%s` is declared outside "
+                                    "the loop, appended to and printed inside it and never emptied: from the second item on the printed text "
+                                    "starts with the text of the items before it" % (f["path"], let["pat"].get("name")), f["file"], let.get("ln") or f["line"], {}))
+    res.oblige(1, True)
+    if st["printers"] < 20:
+        raise BrokenCheck("%s: %d printers scanned (floor 20)" % (rule, st["printers"]))
+
+
 def r04_13(facts, res, rule="R04-13"):
     """The standalone document declaration is printed whenever the document has one, with the value it has: Some(false) is
     `standalone="no"`, not nothing (the re-parsed document has no declaration, which is a different [document] property)."""
@@ -884,6 +950,7 @@ def run(facts, tier):
     r04_11(facts, res)
     r04_12(facts, res)
     r04_13(facts, res)
+    r04_14(facts, res)
     # ---- R04-3
     st3 = res.rule("R04-3", instances=0)
     for ty in ITEM_TYPES:
